@@ -1695,11 +1695,14 @@ class Authenticated(BaseClientHandler):
                     f"[TRYCREATE] No such mailbox: '{cmd.mailbox_name}'"
                 ) from exc
 
-        return self._format_copyuid(
-            dest_mbox,
-            [u for u in src_uids if u is not None],
-            [u for u in dst_uids if u is not None],
-        )
+        # NOTE: No messages copied (eg: a UID set that names no message), no
+        #       COPYUID: its uid sets can not be empty (rfc4315.)
+        #
+        src_uid_list = [u for u in src_uids if u is not None]
+        dst_uid_list = [u for u in dst_uids if u is not None]
+        if not src_uid_list or not dst_uid_list:
+            return None
+        return self._format_copyuid(dest_mbox, src_uid_list, dst_uid_list)
 
     ##################################################################
     #
@@ -1766,8 +1769,11 @@ class Authenticated(BaseClientHandler):
         #
         src_uid_list = [u for u in src_uids if u is not None]
         dst_uid_list = [u for u in dst_uids if u is not None]
-        copyuid = self._format_copyuid(dest_mbox, src_uid_list, dst_uid_list)
-        await self.client.push(f"* OK {copyuid}\r\n")
+        if src_uid_list and dst_uid_list:
+            copyuid = self._format_copyuid(
+                dest_mbox, src_uid_list, dst_uid_list
+            )
+            await self.client.push(f"* OK {copyuid}\r\n")
 
         # Phase 3: Re-acquire the source mailbox and expunge the moved
         # messages by their UIDs, regardless of the Deleted sequence.
